@@ -133,7 +133,7 @@ func (o *WireOracles) onSend(rec *DgramRec, data []byte) {
 			continue
 		}
 		if p.Type == TapUnknown {
-			o.report("C05", "a packet on the wire cannot be opened with independently derived keys", "%s#%d offset %d (%d bytes): no known connection/key opens it", dirName(p.Dir), p.Ord, p.Off, p.Size)
+			o.report("C05", "a packet on the wire cannot be opened with independently derived keys", "%s#%d offset %d (%d bytes): no known connection/key opens it; starts with %x", dirName(p.Dir), p.Ord, p.Off, p.Size, data[min(p.Off, len(data)):min(p.Off+24, len(data))])
 			continue
 		}
 		if p.Conn != nil && p.Conn.Shadow {
